@@ -45,14 +45,14 @@ func c25Base(rng *rand.Rand, chron string) (pre, post []string) {
 }
 
 func c25Gen(rng *rand.Rand, tier string, w *bufio.Writer) {
-	nBase, maxN := 3, 24
+	nBase, maxN := 2, 18
 	if tier == "thorough" {
 		nBase, maxN = 12, 60
 	}
 	id := 0
 	for b := 0; b < nBase; b++ {
 		chron := fmt.Sprintf("chron cfg %d 0.3", c02Pick(rng, 450, 900, 16384))
-		if b == 1 {
+		if b%2 == 1 {
 			chron = "chron name swmp"
 		}
 		pre, post := c25Base(rng, chron)
@@ -65,7 +65,7 @@ func c25Gen(rng *rand.Rand, tier string, w *bufio.Writer) {
 			}
 			id++
 		}
-		for n := 1; n <= 6; n++ {
+		for n := 1; n <= 4; n++ {
 			fmt.Fprintf(w, "case %d inject fsync %d\n", id, n)
 			for _, l := range all {
 				fmt.Fprintln(w, l)
@@ -73,7 +73,7 @@ func c25Gen(rng *rand.Rand, tier string, w *bufio.Writer) {
 			id++
 		}
 		// two hard errors
-		for t := 0; t < 4; t++ {
+		for t := 0; t < 3; t++ {
 			a := 3 + rng.Intn(maxN-6)
 			fmt.Fprintf(w, "case %d inject write2 %d %d\n", id, a, a+2+rng.Intn(4))
 			for _, l := range all {
